@@ -181,7 +181,9 @@ def op_menu(shape, tier):
     ops += [("zoom_to_int", n) for n in (1, 3, 8)]
     ops += [("zoom_to_res", k) for k in (0.5, 2, 3)]
     ops += [("scaled_down", n) for n in (2, 3)]
-    ops += [("buffered", bx, by) for bx, by in ((0, None), (1, None), (2.5, 0.5), (0.3, 1.2))]
+    ops += [("buffered", bx, by) for bx, by in ((0, None), (1, None), (2.5, 0.5), (0.3, 1.2),
+                                                 # explicit zeros on either side (0 is not "not given")
+                                                 (3.0, 0), (0, 2.0), (0, 0), (1.5, 0.0))]
     ops += [("mul", k) for k in ("T(1,2)", "S(2)", "S(-1,1)T")]
     ops += [("rmul", k) for k in ("T(10,-20)", "S(2)", "R(30)")]
     return ops
@@ -529,6 +531,20 @@ def run_gcp(case):
                 return
         if g.crs != CRS("EPSG:4326"):
             r.fail(f"gcp:{label}:crs", what)
+        # resolution of THIS view: one pixel step under its own pix2wld (same decomposition as for affine boxes:
+        # |step along x| and parallelogram area / |step along x|), measured at the centre of the view
+        cx, cy = g.shape[1] / 2, g.shape[0] / 2
+        ox_, oy_ = M * (cx, cy)
+        if kind == "affine" or (-1 <= ox_ <= 11 and -1 <= oy_ <= 9):
+            p0, px_, py_ = g.pix2wld(cx, cy), g.pix2wld(cx + 1, cy), g.pix2wld(cx, cy + 1)
+            ux, uy = (px_[0] - p0[0], px_[1] - p0[1]), (py_[0] - p0[0], py_[1] - p0[1])
+            bx_ = math.hypot(*ux)
+            area = abs(ux[0] * uy[1] - ux[1] * uy[0])
+            res = g.resolution
+            rtol = 1e-6 if kind == "affine" else 0.05
+            if abs(abs(res.x) - bx_) > rtol * bx_ or abs(abs(res.y) - area / bx_) > rtol * area / bx_:
+                r.fail(f"gcp:{'base' if label == 'base' else 'derived-view'}:resolution:{kind}",
+                       f"{what} {label}: resolution {res} but one pixel step of this view measures ({bx_:.6g}, {area / bx_:.6g})")
 
     check(G, Affine.identity(), "base")
     # chains of view operations (non-initial states): the composed pixel map must hold after every step
